@@ -1,6 +1,7 @@
 package main
 
 import (
+	"encoding/binary"
 	"math/big"
 	"math/rand"
 	"strings"
@@ -183,6 +184,53 @@ func runC16(r *Run, rng *rand.Rand, thorough bool) {
 	}
 	r.Do("hash.SHA512_256", false, "sha512_256", "_")
 	r.Do("hash.SHA512_256i", false, "sha512_256i", "_")
+
+	// 1b. split points across an embedded frame: (…, A, B‖f‖D) against (…, A‖f‖B, D) for every f that looks like the
+	// per-element frame ('$' followed by a 64-bit count or length, either byte order), same element count
+	le := func(k int) []byte { b := make([]byte, 8); binary.LittleEndian.PutUint64(b, uint64(k)); return b }
+	be := func(k int) []byte { b := make([]byte, 8); binary.BigEndian.PutUint64(b, uint64(k)); return b }
+	cat := func(bs ...[]byte) []byte {
+		var o []byte
+		for _, b := range bs {
+			o = append(o, b...)
+		}
+		return o
+	}
+	parts := [][]byte{{0x01}, {0x24}, {0x07, 0x24}, {0xab, 0xcd, 0xef}}
+	for _, prefix := range [][][]byte{nil, {{0x05}}, {{0x05}, {0x06, 0x07}}} {
+		n := len(prefix) + 2
+		for pi, A := range parts {
+			B, D := parts[(pi+1)%len(parts)], parts[(pi+2)%len(parts)]
+			ks := []int{n, n - 1, len(A), len(B), len(D), len(A) + 9 + len(B), len(B) + 9 + len(D), 0, 1}
+			var frames [][]byte
+			for _, k := range ks {
+				frames = append(frames, cat([]byte{'$'}, le(k)), cat([]byte{'$'}, be(k)), le(k))
+			}
+			frames = append(frames, []byte{'$'})
+			for _, f := range frames {
+				t1 := append(append([][]byte{}, prefix...), A, cat(B, f, D))
+				t2 := append(append([][]byte{}, prefix...), cat(A, f, B), D)
+				g1, _, _ := r.Do("hash.SHA512_256/embedded-frame", true, "sha512_256", eBytesList(t1))
+				g2, _, _ := r.Do("hash.SHA512_256/embedded-frame", true, "sha512_256", eBytesList(t2))
+				r.Assert(g1 != g2, "hash.SHA512_256/split-collision", "digest-injective-bytes", func() string { return eBytesList(t1) + " and " + eBytesList(t2) + " share digest " + g1 })
+				toInts := func(t [][]byte) []*big.Int {
+					o := make([]*big.Int, len(t))
+					for i, b := range t {
+						o[i] = new(big.Int).SetBytes(b)
+					}
+					return o
+				}
+				i1, i2 := toInts(t1), toInts(t2)
+				h1, _, _ := r.Do("hash.SHA512_256i/embedded-frame", true, "sha512_256i", eInts(i1))
+				h2, _, _ := r.Do("hash.SHA512_256i/embedded-frame", true, "sha512_256i", eInts(i2))
+				r.Assert(h1 != h2, "hash.SHA512_256i/split-collision", "digest-injective-ints", func() string { return eInts(i1) + " and " + eInts(i2) + " share digest " + h1 })
+				tg := []byte("tag")
+				k1, _, _ := r.Do("hash.SHA512_256i_TAGGED/embedded-frame", true, "sha512_256i_tagged", eBytes(tg), eInts(i1))
+				k2, _, _ := r.Do("hash.SHA512_256i_TAGGED/embedded-frame", true, "sha512_256i_tagged", eBytes(tg), eInts(i2))
+				r.Assert(k1 != k2, "hash.TAGGED/split-collision", "digest-injective-tagged", func() string { return eInts(i1) + " and " + eInts(i2) + " share digest " + k1 })
+			}
+		}
+	}
 
 	// 2. tagged hash: different tags / splits give different digests
 	seenT := map[string]string{}
